@@ -16,6 +16,10 @@ HEADERS = [
     ("two", ["Summary line of the thing.", "", "Longer description that explains", "the thing over two lines."]),
     ("bullets", ["Summary line of the thing.", "", "It does:", "- first item", "- second item"]),
     ("colon_end", ["Summary line of the thing.", "", "The options are as follows:"]),
+    # header prose that *mentions* the words the section scanners look for
+    ("returns_prose", ["Summary line of the thing.", "", "Returns: nothing useful, the list itself is modified", "in place by the thing."]),
+    ("parameters_prose", ["Summary line of the thing.", "", "Parameters of the thing are listed further down;", "the return value is described last."]),
+    ("param_inline", ["Summary line of the thing.", "", "Pass the first value (see :param alpha: below) and", "then the second one."]),
 ]
 SECTIONS = {
     "rest": [":param alpha: the alpha", ":type alpha: ```int```", "", ":param beta: the beta. Defaults to 5", ":type beta: ```int```", "", ":return: the result", ":rtype: ```str```"],
